@@ -7,7 +7,7 @@ import numpy as np
 
 from .. import gen
 
-CLASSES = ["uniform", "clustered", "collinear", "tied", "converged", "tied_best", "converged_offset"]
+CLASSES = ["uniform", "clustered", "collinear", "tied", "converged", "tied_best", "converged_offset", "inf_ties", "int_best"]
 BAND = 1e-9
 
 
@@ -38,7 +38,7 @@ def ref_nbc(genomes, fits, maximize, factor, trunc):
 
 def gen_population(rng, cls, n, d):
     pts = []
-    if cls == "uniform" or cls in ("tied", "tied_best"):
+    if cls == "uniform" or cls in ("tied", "tied_best", "inf_ties", "int_best"):
         pts = [[rng.uniform(-5, 5) for _ in range(d)] for _ in range(n)]
     elif cls == "clustered":
         k = rng.randint(2, 5)
@@ -78,6 +78,16 @@ def gen_population(rng, cls, n, d):
         c0 = pts[0]
         off = rng.choice([1.0, 7.5, 50.0, -3.25])
         fits = [off + sum((x - y) ** 2 for x, y in zip(p, c0)) for p in pts]
+    if cls == "inf_ties" and n >= 4:
+        # several individuals carry the (worst-direction) infinite value, e.g. budget sentinels or a penalty zone
+        for i in rng.sample(range(n), rng.randint(2, max(2, n // 3))):
+            fits[i] = math.inf
+    if cls == "int_best":
+        # the best individual's genome has integer coordinates (and will be stored as an int64 array)
+        b = min(range(n), key=lambda i: fits[i])
+        pts[b] = [float(round(x)) for x in pts[b]]
+        if any(pts[b] == q for k_, q in enumerate(pts) if k_ != b):
+            pts[b][0] += 17.0
     if cls == "tied":
         mode = rng.choice(["pairs", "all", "levels"])
         if mode == "pairs":
@@ -135,7 +145,7 @@ def make_case(seed, idx, tier):
     }
 
 
-def _cluster(genomes, fits, maximize, factor, trunc, n_objs=1):
+def _cluster(genomes, fits, maximize, factor, trunc, n_objs=1, int_best=False):
     from pyhms.core.individual import Individual
     from pyhms.core.problem import FunctionProblem
     from pyhms.utils.clusterization import NearestBetterClustering
@@ -145,6 +155,11 @@ def _cluster(genomes, fits, maximize, factor, trunc, n_objs=1):
     # in tree.all_individuals, each hold their own deme's wrapper)
     probs = [FunctionProblem(lambda x: 0.0, np.array([[-1e9, 1e9]] * d), maximize) for _ in range(max(1, n_objs))]
     inds = [Individual(np.array(g, dtype=np.float64), probs[k % len(probs)], float(f)) for k, (g, f) in enumerate(zip(genomes, fits))]
+    if int_best:
+        order = sorted(range(len(fits)), key=lambda i: (-fits[i] if maximize else fits[i]))
+        b = order[0]
+        if all(float(x).is_integer() for x in genomes[b]):
+            inds[b].genome = np.array([int(x) for x in genomes[b]], dtype=np.int64)
     nbc = NearestBetterClustering(inds, factor, trunc)
     import warnings
 
@@ -230,7 +245,7 @@ def run_case(desc):
     try:
         n_objs = desc.get("n_problem_objects", 1)
         cov[f"problem_objects.{min(n_objs, 3)}"] += 1
-        got, dists = _cluster(genomes, fits, maximize, factor, trunc, n_objs)
+        got, dists = _cluster(genomes, fits, maximize, factor, trunc, n_objs, int_best=(cls == "int_best"))
     except Exception as e:
         viol("clustering raised an exception", error=repr(e)[:200])
         return {"violations": violations, "cov": cov, "nontrivial": [], "sample": None}
@@ -273,7 +288,7 @@ def run_case(desc):
 
         def same(name, g2, f2, mx2, perm=None):
             try:
-                got2, _ = _cluster(g2, f2, mx2, factor, trunc)
+                got2, _ = _cluster(g2, f2, mx2, factor, trunc, 1, False)
             except Exception as e:
                 viol(f"clustering raised an exception on a {name} input", error=repr(e)[:200])
                 return
